@@ -211,6 +211,65 @@ pub fn cases(tier: Tier) -> Vec<Case> {
     }
     out.push(Case { family: "match-vector", def: String::new(), calls, locus: format!("match-vector:{}", sel.iter().map(|i| ["exact1", "exact2", "head", "tail", "head-lit", "tail-lit"][*i]).collect::<Vec<_>>().join(",")) });
   }
+  // (G) enum subjects: variant arms in every order, a duplicate arm, a wildcard; coverage decides acceptance
+  {
+    let variants = ["red", "green", "blue"];
+    // (pattern variant or None = wildcard, value)
+    let pool: Vec<(Option<usize>, i64, &str)> = vec![(Some(0), 1, "red"), (Some(1), 2, "green"), (Some(2), 3, "blue"), (None, 9, "wild"), (Some(0), 7, "red-again")];
+    for sel in ordered_selections(pool.len(), maxsel) {
+      let arms: Vec<&(Option<usize>, i64, &str)> = sel.iter().map(|i| &pool[*i]).collect();
+      let has_wild = arms.iter().any(|a| a.0.is_none());
+      let covered = (0..3).all(|v| arms.iter().any(|a| a.0 == Some(v)));
+      let text = |glyph_fn: bool| -> String {
+        let lines: Vec<String> = arms.iter().map(|a| match a.0 { Some(v) => format!(":{} => {}", variants[v], a.1), None => format!("* => {}", a.1) }).collect();
+        if glyph_fn { glyphs(&lines.iter().map(|x| x.as_str()).collect::<Vec<_>>()) } else { lines.iter().map(|l| format!("  | {}", l)).collect::<Vec<_>>().join("\n") }
+      };
+      let expect = |v: usize| -> Expect {
+        if !has_wild && !covered { return Expect::MustError; }
+        match arms.iter().find(|a| a.0.is_none() || a.0 == Some(v)) { Some(a) => Expect::Val(f64s(a.1)), None => Expect::MustError }
+      };
+      let locus_arms = sel.iter().map(|i| pool[*i].2).collect::<Vec<_>>().join(",");
+      // match expression
+      let mut calls = vec![];
+      for v in 0..3 { calls.push((format!("c{v}<col> := :{name}\nr@ := c{v}?\n{body}.", v = v, name = variants[v], body = text(false)), expect(v))); }
+      out.push(Case { family: "match-enum", def: "<col> := :red | :green | :blue".into(), calls, locus: format!("match-enum:{}", locus_arms) });
+      // match-arm function with an enum input
+      let mut calls = vec![];
+      for v in 0..3 { calls.push((format!("h{v}(c<col>) => <f64>\n{body}\nd{v}<col> := :{name}\nr@ := h{v}(d{v})", v = v, name = variants[v], body = glyphs(&arms.iter().map(|a| match a.0 { Some(x) => format!(":{} => {}", variants[x], a.1), None => format!("* => {}", a.1) }).collect::<Vec<_>>().iter().map(|x| x.as_str()).collect::<Vec<_>>())), expect(v))); }
+      out.push(Case { family: "fn-enum", def: "<col> := :red | :green | :blue".into(), calls, locus: format!("fn-enum:{}", locus_arms) });
+    }
+    // variants that carry a value: literal payloads, captured payloads, guards
+    let pool2: Vec<(&str, &str)> = vec![(":circle(1) => 100", "circle-lit"), (":circle(x) => x + 10", "circle-var"), (":circle(x), x > 2 => x + 200", "circle-guard"), (":square(x) => x + 50", "square-var"), (":square(2) => 300", "square-lit"), ("* => 0", "wild")];
+    // reference: (variant, payload) -> first matching arm
+    fn arm2(i: usize, variant: usize, x: i64) -> Option<i64> { match i { 0 => if variant == 0 && x == 1 { Some(100) } else { None }, 1 => if variant == 0 { Some(x + 10) } else { None }, 2 => if variant == 0 && x > 2 { Some(x + 200) } else { None }, 3 => if variant == 1 { Some(x + 50) } else { None }, 4 => if variant == 1 && x == 2 { Some(300) } else { None }, _ => Some(0) } }
+    for sel in ordered_selections(pool2.len(), maxsel.min(3)) {
+      let has_wild = sel.contains(&5);
+      let names_covered = sel.iter().any(|i| *i <= 2) && sel.iter().any(|i| *i == 3 || *i == 4);
+      let totally_covered = sel.contains(&1) && sel.contains(&3);
+      let body = sel.iter().map(|i| format!("  | {}", pool2[*i].0)).collect::<Vec<_>>().join("\n");
+      let mut calls = vec![];
+      for (k, (variant, x)) in [(0usize, 1i64), (0, 2), (0, 3), (1, 2), (1, 4)].iter().enumerate() {
+        let first = sel.iter().find_map(|i| arm2(*i, *variant, *x));
+        let e = if !has_wild && !names_covered { Expect::MustError }
+                else { match first { Some(v) if has_wild || totally_covered => Expect::Val(f64s(v)), Some(v) => Expect::ValOrError(f64s(v)), None => Expect::MustError } };
+        calls.push((format!("q{k}<shape> := :{name}({x})\nr@ := q{k}?\n{body}.", k = k, name = ["circle", "square"][*variant], x = x, body = body), e));
+      }
+      out.push(Case { family: "match-enum-payload", def: "<shape> := :circle<f64> | :square<f64>".into(), calls, locus: format!("match-enum-payload:{}", sel.iter().map(|i| pool2[*i].1).collect::<Vec<_>>().join(",")) });
+    }
+    // two enums of one session that share their variant names: a value of either must still match its arms
+    for (fam, d1, d2, subj, body, exp) in [
+      ("plain", "<ea> := :on | :off", "<eb> := :on | :off", ":off", "  | :on => 1\n  | :off => 2", 2i64),
+      ("payload", "<pa> := :circle<f64> | :square<f64>", "<pb> := :circle<f64> | :square<f64>", ":circle(2)", "  | :circle(x) => x + 10\n  | * => 0", 12),
+    ] {
+      let (n1, n2) = (d1.split('>').next().unwrap_or("").trim_start_matches('<'), d2.split('>').next().unwrap_or("").trim_start_matches('<'));
+      let calls = vec![
+        (format!("u1<{}> := {}\nr@ := u1?\n{}.", n1, subj, body), Expect::Val(f64s(exp))),
+        (format!("{}\nu2<{}> := {}\nr@ := u2?\n{}.", d2, n2, subj, body), Expect::Val(f64s(exp))),
+        (format!("r@ := u1?\n{}.", body), Expect::Val(f64s(exp))),
+      ];
+      out.push(Case { family: "match-enum-shared-names", def: d1.to_string(), calls, locus: format!("match-enum-shared-names:{}", fam) });
+    }
+  }
   // (F) recursion: the recurrence over its whole non-overflowing domain
   let fact: Vec<(String, Expect)> = (0..=20u64).map(|n| (format!("fact({}u64)", n), Expect::Val((1..=n).map(|x| x as u128).product::<u128>().to_string()))).collect();
   out.push(Case { family: "recursion", def: "fact(n<u64>) => <u64>\n  ├ 0u64 => 1u64\n  └ n => n * fact(n - 1u64).".into(), calls: fact, locus: "recursion:factorial".into() });
@@ -289,9 +348,9 @@ impl Check for C16 {
   fn unit_budget(&self, _t: Tier) -> Duration { Duration::from_secs(120) }
   fn drive(&mut self, tier: Tier, cfg: &PoolCfg, rep: &mut Report) {
     let n = self.cases.len() as u64;
-    rep.rule = format!("{} generated definitions: every ordered selection of 1..{} arms from pools of literal / variable / wildcard arms (one argument), tuple patterns incl. a repeated variable and swapped names (two arguments), guarded match arms on scalars, tuple-subject matches that reuse names at different positions with guards, vector patterns (exact, head, tail, literal ends), each evaluated over its whole small argument domain incl. wrong arities and matrix broadcast; \
+    rep.rule = format!("{} generated definitions: every ordered selection of 1..{} arms from pools of literal / variable / wildcard arms (one argument), tuple patterns incl. a repeated variable and swapped names (two arguments), guarded match arms on scalars, tuple-subject matches that reuse names at different positions with guards, vector patterns (exact, head, tail, literal ends), enum subjects (variant arms in every order with a duplicate arm and a wildcard, as a match expression and as a match-arm function; variants carrying a value with literal, captured and guarded payload patterns), each evaluated over its whole small argument domain incl. wrong arities and matrix broadcast; \
       recursion families (factorial 0..20, fibonacci, power, gcd, accumulator tail recursion with every named/wildcard pattern combination to depth {}, countdown to depth {}); the reference is a first-match evaluator with binding, repeated-variable equality and guards written in the harness; evaluations = statements; non-trivial = calls with a fixed verdict", n, tier.pick(3, 4), tier.pick(2000, 100000), tier.pick(100000, 1000000));
-    rep.assumptions = vec!["a scalar match without a `*` arm but with an unguarded variable arm may be rejected or must give the first-match value; without either it must be rejected".into(), "option/_ coalescing arms and arm-kind diagnostics are not judged".into()];
+    rep.assumptions = vec!["a scalar match without a `*` arm but with an unguarded variable arm may be rejected or must give the first-match value; without either it must be rejected".into(), "option/_ coalescing arms and arm-kind diagnostics are not judged".into(), "an enum match without `*` must be rejected unless every variant is named by some arm, whatever the subject; when every variant is named but only through literal or guarded payload patterns, acceptance with the first-match value and rejection are both allowed".into()];
     rep.cov("bounds", json!({"definitions": n}));
     let cs = self.cases.clone();
     rep.describe = Some(Box::new(move |_p, u| { let c = &cs[u as usize]; (c.locus.clone(), format!("{} {:?}", c.def.replace('\n', " "), c.calls.get(0).map(|x| x.0.replace('\n', " ")))) }));
